@@ -803,7 +803,6 @@ def unit_lockcov(src: Path) -> dict:
 
 UNITS = [
     ("PriEntry.__lt__", ["PriEntry.lean"], unit_prientry),
-    ("PriorityValue / compute_priority_boost / update_counters", ["Priority.lean"], unit_priority),
     ("lock coverage, deque primitives", ["LockCoverage.lean"], unit_lockcov),
     ("deque_pop, queue_find, call_pos, task predicates", ["Sched.lean"], lambda src: {"Sched.lean": gen_sched(src)}),
     ("tools.PriorityQueue", ["PQ.lean"], lambda src: __import__("pq2lean").generate(src)),
